@@ -42,7 +42,7 @@ Definition sbf (c : nat) (fr : frame) : bool :=
   match fr with FJob j _ _ | FDRrequeue j | FDQrequeue _ _ j | FROpend j | FROcheck j | FROpark j | FD1 j => sbj c j | _ => false end.
 Fixpoint cntb (c : nat) (l : list job) : nat := match l with [] => 0 | j :: r => (if sbj c j then 1 else 0) + cntb c r end.
 Definition nsb (c : nat) (s : state) : nat := np (sbf c) s + cntb c s.(jobs).
-Definition is_sbwait (fr : frame) : bool := match fr with FSBwait => true | _ => false end.
+Definition is_sbwait (fr : frame) : bool := match fr with FSBwait | FSBclaim => true | _ => false end.
 Definition sresb (s : state) (c : nat) : bool := default false (sress s !! c).
 Definition sb_ok (s : state) (c : nat) (st : list frame) : bool :=
   negb (posb (cntf is_sbwait st)) || sresb s c || posb (nsb c s).
